@@ -39,11 +39,27 @@ def run(prog: Program, rep: Report):
     init = bi.methods.get("__init__")
     if init is not None:
         rep.fn(init)
-        guards = [n for n in walk_own(init.node) if isinstance(n, ast.If) and isinstance(n.test, ast.Compare)
-                  and src(n.test.left) == init.params[2] and isinstance(n.test.ops[0], (ast.LtE, ast.Lt))
-                  and any(isinstance(x, ast.Raise) for x in n.body)]
-        ok = bool(guards) and ((isinstance(guards[0].test.ops[0], ast.LtE) and const_value(guards[0].test.comparators[0]) == 0)
-                               or (isinstance(guards[0].test.ops[0], ast.Lt) and const_value(guards[0].test.comparators[0]) == 1))
+        from ..orderings import NotAFormula, eval_order, weak_orderings
+        size_p = init.params[2]
+        ok = False
+        for n in walk_own(init.node):
+            if isinstance(n, ast.If) and any(isinstance(x, ast.Raise) for x in n.body) \
+                    and any(isinstance(x, ast.Name) and x.id == size_p for x in ast.walk(n.test)):
+                def term(x):
+                    if const_value(x, None) == 0:
+                        return env["zero"]
+                    if const_value(x, None) == 1:
+                        return env["one"]
+                    return None
+                try:
+                    W = [w for w in weak_orderings([size_p, "zero", "one"]) if w["zero"] < w["one"]
+                         and not (w["zero"] < w[size_p] < w["one"])]
+                    ok = True
+                    for env in W:
+                        if eval_order(n.test, env, term) != (env[size_p] <= env["zero"]):
+                            ok = False
+                except NotAFormula:
+                    ok = False
         rep.check("C19.R1", init, "size-validated", ok, "batch_size <= 0 is rejected (the idiom relies on sizes >= 1)",
                   "batch_size is not validated to be positive: with size 0 no batch is ever closed",
                   scenario="BatcherIter(data, 0) yields one unbounded batch instead of raising ValueError")
